@@ -142,6 +142,9 @@ def build(rng, cell, natoms):
         if kind == 'aniso':
             U = gen_u(rng, cell)
             uv = [U[0][0], U[1][1], U[2][2], U[1][2], U[0][2], U[0][1]]
+            if rng.random() < 0.2:
+                # an ellipsoid aligned with the cell axes: three different diagonal terms, all off-diagonal terms zero
+                uv = [round(rng.uniform(0.01, 0.09), 5), round(rng.uniform(0.01, 0.09), 5), round(rng.uniform(0.01, 0.09), 5), 0.0, 0.0, 0.0]
             lines.append('C%d 1 %.5f %.5f %.5f 11.0 %.5f %.5f =' % (i, xyz[0], xyz[1], xyz[2], uv[0], uv[1]))
             lines.append('   %.5f %.5f %.5f %.5f' % (uv[2], uv[3], uv[4], uv[5]))
         else:
@@ -191,6 +194,15 @@ def oracle(ctx, n_struct):
             bad('CELL.volume differs from sqrt(det G)', V, shx.cell.volume)
         if not close(shx.cell.o.m.det, V):
             bad('det of the orthogonalisation matrix differs from the cell volume', V, shx.cell.o.m.det)
+        # the inverse the cell object offers (CELL.o.inversed, Shelxfile.orthogonal_matrix.inversed) maps Cartesian back to fractional coordinates
+        for inv_name, inv in (('CELL.o.inversed', shx.cell.o.inversed), ('orthogonal_matrix.inversed', shx.orthogonal_matrix.inversed)):
+            for v in ([1, 0, 0], [0, 1, 0], [0, 0, 1], [0.1234, -0.4321, 0.777]):
+                c_ = list(shx.frac_to_cart(v))
+                rows = inv.values if hasattr(inv, 'values') else inv
+                back = [sum(rows[r][k] * c_[k] for k in range(3)) for r in range(3)]
+                if not all(close(p_, q_, 1e-7, 1e-8) for p_, q_ in zip(back, v)):
+                    bad('%s does not map Cartesian coordinates back to the fractional ones' % inv_name, v, back)
+                    break
         # conventional setting
         e = [list(shx.frac_to_cart(v)) for v in ([1, 0, 0], [0, 1, 0], [0, 0, 1])]
         if not (close(e[0][0], cell[0]) and abs(e[0][1]) < 1e-9 and abs(e[0][2]) < 1e-9 and abs(e[1][2]) < 1e-9
